@@ -238,7 +238,16 @@ def run(ctx):
     if not ctx.proof_gate(THEOREMS, ['Inert.vo']):
         return
     n = 50 if ctx.tier == 'quick' else 400
-    specs = ctx.specs(util.corpus(ctx.prop) + gen.gen_many(ctx.seed, n, CFG, 'c08_'))
+    # windows given as aware stamps of another zone than the grid's (the same instants)
+    zoned = gen.gen_many(ctx.seed, n // 2, dict(CFG, tzs=['CET', 'US/Eastern'], p_window=0.9, p_coarse=0.0), 'c08tz_')
+    for sp in zoned:
+        rng = random.Random(str(sp['seed']) + '/zone')
+        for a in sp['assets']:
+            if (a.get('start') or a.get('end')) and a['kind'] != 'OrderBook':
+                a['window_tz'] = rng.choice(['UTC', 'Asia/Tokyo', 'Etc/GMT+5'])
+    # assets on a coarser frequency that run since one or two coarse steps before the horizon
+    early = gen.gen_many(ctx.seed, n // 3, dict(CFG, p_coarse=1.0, p_coarse_early=0.7, freqs=['h', '30min'], T=(4, 9), n_assets=(1, 2)), 'c08co_')
+    specs = ctx.specs(util.corpus(ctx.prop) + gen.gen_many(ctx.seed, n, CFG, 'c08_') + zoned + early)
     base = [sp for sp in specs if 'base_spec' not in sp and not sp['id'].endswith('+out')]
     pairs = []
     for sp in specs:
